@@ -771,6 +771,11 @@ def selftest(workdir, ob, driver_cc, seed, n_vectors=3):
     rnd = random.Random('%s/%s' % (ob.id, seed))
     ws = [w for w in ob.wrappers if w.ret != 'void' and all(t in BITS for t, n in w.params)]
     if not ws: return 0, [], 'no scalar wrappers'
+    try:
+        if re.search(r'll2c_stub_\w+_calls', open(os.path.join(workdir, san(ob.id), 'closure.c')).read()):
+            return 0, [], 'closure calls a trusted libm stub (its result is unconstrained by design): nothing to compare'
+    except OSError:
+        pass
     d = os.path.join(workdir, 'selftest_' + san(ob.id)); os.makedirs(d, exist_ok=True)
     # native side
     L = ['#include <cstdio>', '#include <cstdint>', '#include <cstring>', '#include <cstdlib>']
@@ -778,7 +783,7 @@ def selftest(workdir, ob, driver_cc, seed, n_vectors=3):
         L.append('extern "C" %s %s(%s);' % (w.ret, w.name, ', '.join('%s %s' % p for p in w.params)))
     L.append('template <class T> static unsigned long long bits_of(T v) { unsigned long long b = 0; std::memcpy(&b, &v, sizeof v); return b; }')
     L.append('template <class T> static T from_bits(unsigned long long b) { T v; std::memcpy(&v, &b, sizeof v); return v; }')
-    L.append('int main(int argc, char **argv) { int k = 1;')
+    L.append('int main(int argc, char **argv) { int k = std::atoi(argv[1]);')
     vectors = []
     def rand_bits(t):
         w = BITS[t]
@@ -796,17 +801,22 @@ def selftest(workdir, ob, driver_cc, seed, n_vectors=3):
         for v in range(n_vectors):
             args = [rand_bits(t) for t, n in w.params]
             calls.append((w, args))
-            L.append('  { auto r = %s(%s); std::printf("%%llx\\n", bits_of(r)); }' % (
-                w.name, ', '.join('from_bits<%s>(0x%xULL)' % (t, a) for (t, n), a in zip(w.params, args))))
+            L.append('  if (k == %d) { auto r = %s(%s); std::printf("%%llx\\n", bits_of(r)); }' % (
+                len(calls) - 1, w.name, ', '.join('from_bits<%s>(0x%xULL)' % (t, a) for (t, n), a in zip(w.params, args))))
     L.append('  return 0; }')
     open(os.path.join(d, 'native_main.cc'), 'w').write('\n'.join(L) + '\n')
-    rc, out, err, dt = run(['g++', '-std=' + ob.std, '-O0', '-w', '-fpermissive', '-Wno-narrowing', '-ffp-contract=off', '-I' + INC, *ob.extra_cxxflags,
+    # the native side is built with UBSan: a random vector on which the real code executes UB has no defined result to compare and is dropped
+    rc, out, err, dt = run(['g++', '-std=' + ob.std, '-O0', '-w', '-fpermissive', '-Wno-narrowing', '-ffp-contract=off', '-fsanitize=undefined,float-cast-overflow',
+                            '-fno-sanitize-recover=all', '-I' + INC, *ob.extra_cxxflags,
                             driver_cc, os.path.join(d, 'native_main.cc'), '-o', os.path.join(d, 'native')], timeout=900, mem_kb=16 * 1024 * 1024)
     if rc != 0: return 0, [], 'native build failed: ' + err[-300:]
-    rc, out, err, dt = run([os.path.join(d, 'native')], timeout=60)
-    if rc != 0: return 0, [], 'native run failed (rc=%s): the random input may hit UB; skipped' % rc
-    native = [int(x, 16) for x in out.split()]
-    if len(native) != len(calls): return 0, [], 'native output mismatch'
+    native = []; kept = []
+    for k, c in enumerate(calls):
+        rc, out, err, dt = run([os.path.join(d, 'native'), str(k)], timeout=60)
+        if rc != 0 or len(out.split()) != 1: continue
+        native.append(int(out.split()[0], 16)); kept.append(c)
+    calls = kept
+    if not calls: return 0, [], 'every random vector executes UB natively; nothing to compare'
     # CBMC side: translated closure with pinned inputs
     obdir = os.path.join(workdir, san(ob.id))
     H = ['#define VF_CBMC 1', '#include "spec_lib.h"', '_Bool ll2c_ub_on = 0;', '#include "%s"' % os.path.join(obdir, 'closure.c'),
